@@ -8,6 +8,7 @@
 -/
 import Pymodbus.Props.C10
 import Pymodbus.Props.C07
+import Pymodbus.Props.C03
 namespace Pymodbus.Props.C12
 open Pymodbus Pymodbus.Server Pymodbus.Framer
 
@@ -66,7 +67,51 @@ theorem offending_data_closes_or_resets (cfg : Cfg) (conn : Conn) (ctx : Units) 
     · left; rfl
     · cases cfg.frontend <;> first | (right; exact ⟨rfl, rfl⟩) | (left; simp_all)
 
+theorem decServer_eq : decServer = (fun pdu => (Impl.decReq pdu).map some) := by
+  funext pdu
+  unfold decServer
+  cases Impl.decReq pdu <;> rfl
+
+/-- the contexts after executing a request on the unit `uid` resolves to -/
+def afterExec (ctx : Units) (uid : Nat) (s' : SlaveCtx) : Units :=
+  let key : Int := if ctx.single then 0 else uid
+  { ctx with slaves := ServerCtx.insert ctx.slaves key s' }
+
+/-- after ANY history (the contexts `ctx` are arbitrary), a well-formed request on a fresh connection is answered
+    with exactly one frame: the framing, with the request's ids, of what executing the request on the addressed
+    unit's current tables yields (TCP framing; every front-end) -/
+theorem fresh_connection_probe_tcp (cfg : Cfg) (hf : cfg.framer = .tcp) (ctx : Units)
+    (r : Req) (hp : C01.Plain r) (hw : PduSpec.WFReq r) (hd : C01.DiagOneWord r) (tid pid uid : Nat)
+    (hu : validUnit (acceptedUnits cfg ctx) ctx.single uid = true)
+    (s : SlaveCtx) (hs : ctx.getItem uid = .ok s) (hb : C10.bcast cfg uid = false)
+    (f : Bytes) (hfr : frameResp cfg (Impl.serverExecute s (PduSpec.normReq r)).2 uid tid pid = .ok f) :
+    ∃ data, Impl.encReq r = .ok data ∧
+      (connStep cfg { buf := [] } ctx (tcpFrame tid pid uid r.fc data)).2.2 = ([f], none) ∧
+      (connStep cfg { buf := [] } ctx (tcpFrame tid pid uid r.fc data)).1 = { buf := [], running := true } := by
+  obtain ⟨data, he, hfeed⟩ := C03.request_roundtrip_tcp r hp hw hd tid pid uid (acceptedUnits cfg ctx) ctx.single hu
+  refine ⟨data, he, ?_⟩
+  have hcb : callback cfg ctx (PduSpec.normReq r) uid =
+      (afterExec ctx uid (Impl.serverExecute s (PduSpec.normReq r)).1, some (Impl.serverExecute s (PduSpec.normReq r)).2) := by
+    unfold callback
+    have hb' : (cfg.broadcast && hasBroadcast cfg.frontend && uid == 0) = false := hb
+    rw [if_neg (by simp [hb'])]
+    simp only [hs, afterExec]
+  have hstep : stepFor .tcp = tcpStep := by
+    funext buf; rfl
+  have hh : handleEvents cfg ctx [.deliver (PduSpec.normReq r) uid tid pid] =
+      (afterExec ctx uid (Impl.serverExecute s (PduSpec.normReq r)).1, [f], none) := by
+    simp only [handleEvents, hcb, hfr]
+  unfold connStep
+  simp only [Bool.not_true, Bool.false_eq_true, if_false, hf, reduceCtorEq, hstep, decServer_eq, hfeed, hh]
+  constructor
+  · trivial
+  · simp
+
 example : (connStep ⟨.tcp, .syncTcp, false, false⟩ { buf := [] } (ServerCtx.mkSingle ⟨[.seq ⟨0, [1]⟩], 0, 0, 0, 0, true⟩)
     [0, 1, 0, 0, 0, 3, 1, 16, 0]).1.running = false := by rfl
+
+-- the probe theorem's conclusion on a concrete instance (read holding register 0 of a one-register unit holding 7)
+example : (connStep ⟨.tcp, .aioTcp, false, false⟩ { buf := [] } (ServerCtx.mkSingle ⟨[.seq ⟨0, [7]⟩], 0, 0, 0, 0, true⟩)
+    [0, 1, 0, 0, 0, 6, 1, 3, 0, 0, 0, 1]).2.2 = ([[0, 1, 0, 0, 0, 5, 1, 3, 2, 0, 7]], none) := by rfl
 
 end Pymodbus.Props.C12
